@@ -172,3 +172,26 @@ def all_codes(code, path="m"):
         if isinstance(c, types.CodeType):
             for x in all_codes(c, "%s.%d" % (path, i)):
                 yield x
+
+
+def keyfp(v):
+    """The encoder's notion of "same constant" (code_data._constants.constant_key), computed
+    independently: type- and bit-exact except that every NaN is the same NaN."""
+    import math
+
+    t = type(v)
+    if t is float:
+        return ["f", "nan" if math.isnan(v) else fbits(v)]
+    if t is complex:
+        return ["c", "nan" if math.isnan(v.real) else fbits(v.real), "nan" if math.isnan(v.imag) else fbits(v.imag)]
+    if t is tuple:
+        return ["t", [keyfp(x) for x in v]]
+    if t is frozenset:
+        import json
+
+        return ["z", sorted((keyfp(x) for x in v), key=lambda q: json.dumps(q, sort_keys=True))]
+    if t is types.CodeType:
+        d = code_fp(v)
+        d["co_consts"] = [keyfp(c) for c in v.co_consts]
+        return ["C", d]
+    return fp(v)
